@@ -56,7 +56,8 @@ def df_to_csv(df, path):
 def check_generated(ctx, n, tmp):
     viol = 0
     for i in range(n):
-        c = exprk.make_case(ctx.rng, ctx.rng.choice([1, 2, 3]), kinds=None)
+        c = exprk.make_case(ctx.rng, ctx.rng.choice([1, 2, 3]), kinds=None,
+                            directed=ctx.rng.choice([None, None, None, None, "setctx", "nest21", "chain"]))
         if c is None:
             continue
         base = exprk.run_engine(c)
